@@ -39,6 +39,11 @@ CHECKS = {
     text="TLC explores every token path of the reader machine up to 6 (quick) / 7 (thorough) symbols over comment, blank, 22 problem-line variants, integers -3..3 and a word (n <= 2) with invariants Accept => out = Denotation(whole text) and counts match and literals in range, NoDenotation => rejected, and the round trip Read(Write(F)) = F for all formulas with <= 2 variables and <= 3 clauses of width <= 2 under the four header/varnames options (including what line breaks in header fields and names expose). Every path of depth 5/6 is rendered into 3 concrete texts and read by the real CNF.from_file (outcome in TLC's allowed set, result = TLC's denotation). Hundreds of formulas x 4 options written by the real writer, and thousands of mutated/garbage texts read by the real reader, are judged by TLC. Bounded-exhaustive plus seeded sampling, not a proof for all texts.",
     note="Trusted: the harness lexer (lines end at \\n, \\r\\n or \\r; Unicode-whitespace separated tokens; Python int() decides integers; first non-blank character c/p classifies a line), the path renderer (self-checked: lex(render(path)) = path), TLC. Reading choices: any 4-token line starting with p whose last two tokens are integers >= 0 is a problem line (lenient acceptance allowed, refusal always allowed); blank lines in writer output tolerated; cnfshuffle -i is not exercised.",
     ref="DESIGN.md §4 C06"),
+ "C10": dict(
+    technique="TLA+ store machine (Store.tla: Insert / NewGroup / Raise) model-checked by TLC; event logs recorded by wrappers around the real store methods are replayed through the same actions and judged by TLC (trace validation, JudgeStore.tla), with the documented variable counts taken from Families.tla / Transform.tla",
+    text="TLC shows that the disciplined store keeps InRange, Monotone and Fresh and that unchecked insertions can break them (so the property is about callers). For every family in both formula classes at realistic sizes, every transformation and random chains of two, and cnfgen/pbgen command lines, the per-object event log (aggregated clause insertions with largest variable and bad-literal count, group creations with first id and length, explicit raises) is validated step by step: counter is a legal successor, every new group is contiguous and above every identifier mentioned so far; at the end literals are non-zero integers within the declared count and the count equals the documented one.",
+    note="Trusted: the wrappers (BaseCNF/BaseOPB.add_clause, BaseOPB.add_constraint, update_variable_number, VariablesManager._add_variable_group; exit 2 if a name disappears), aggregation of consecutive insertions, TLC. Clause data reaching the store by another route would not be seen. Sizes: php up to 30x25, op 20, vdw 60, pitfall 10-regular... see evidence.",
+    ref="DESIGN.md §4 C10"),
  "C11": dict(
     technique="implementation-shaped TLA+ state machine of the variable store (Formula.tla) with abstract and closed-form definitions of every group kind, model-checked exhaustively by TLC; TLC-generated behaviours (every shape in scope, all short interleavings, random walks) replayed into the real CNF and OPB classes with every observable compared with TLC's expected value after every call",
     text="TLC checks on every reachable state of the store machine (all 1476 group shapes in scope after a gap / followed by another group; all interleavings of group creation, add_clause and update_variable_number to depth 3-5 over small alphabets) that the closed forms used by the group classes agree with the documented enumeration, that index->id and id->index are mutually inverse, that indices are in identifier order, that ranges are contiguous, disjoint and fresh, and that names are aligned. Every behaviour [gap; create shape], every history of depth 3 (thorough: 4) and hundreds to thousands of deeper random walks are replayed into cnfgen.CNF and OPB, comparing indices(), g(*index), to_index(+-id), labels, every wildcard / out-of-domain pattern of a probe universe, membership, len, number_of_variables, all_variable_labels and the varname lines of to_file with TLC's values after each call. Bounded-exhaustive in shape size and history depth.",
@@ -54,6 +59,11 @@ CHECKS = {
     text="TLC explores every reachable state of the implementation-shaped graph machine (vertex counts 0..3/4, all arguments incl. invalid) with invariant ViewsAgree and the no-side-effect action property; every behaviour of depth 2 (3 thorough) and thousands of deeper random walks are replayed into Graph/DirectedGraph/BipartiteGraph, comparing all views and networkx conversions with TLC's expected abstract views after each step.",
     note="Trusted: the view accessors used by the replay harness, TLC. Bounded vertex counts and history depth.",
     ref="DESIGN.md §4 C16"),
+ "C19": dict(
+    technique="TLA+ object-pool machine (Provenance.tla: Transform / AddClause / AddEntry) with NoAlias and the header rule model-checked by TLC; snapshots of inputs and arguments recorded around real calls judged by TLC (JudgeProvenance.tla)",
+    text="TLC checks on all chains of bounded length that a step changes at most the object it names and that a new object's header is its parent's header plus one entry 'transformation k' with k least unused (also for headers that already contain numbered entries). Every real transformation (15 substitution/lifting/flip/compression kinds and shuffle) alone and in random chains of 2-3 is applied to formulas with names, headers, empty clauses, missing description: the input is snapshotted before the call, after it, and after the result has been mutated (clause, header entries, variable count), and the result header is checked against the rule; every graph, literal list (all builders, both classes, also failing calls), constraint, charges, shift pattern, planted assignments and explicit shuffle arguments are snapshotted before/after.",
+    note="Trusted: snapshots through the public API, TLC. 'Keeps the original description' is read as prefix (Shuffle appends ' (reshuffled)').",
+    ref="DESIGN.md §4 C19"),
  "C20": dict(
     technique="implementation-shaped TLA+ state machine of the documented solver bridge (Solver.tla) model-checked exhaustively by TLC (18 invariants, an action property on temporary files, termination); every terminal state exported by TLC (scenario rendered to concrete solver output + allowed outcome + leftover files) is replayed into the real CNF.solve()/is_satisfiable() against fake solver executables in a private PATH with an empty TMPDIR",
     text="TLC explores every reachable state of the bridge machine over the bounded scenario scope (6 formulas incl. zero variables / empty clause / unused variables; the three conventions; all 11 table names + an unsupported one; cmd None/empty/name/name+options; sameas none/valid/unknown; installed, non-executable and decoy executables; every stdout skeleton of <=3 (thorough <=4) lines over 9 (11) line kinds with every cut of TLC-chosen real models over <=2 (3) v lines in 3 print orders; result-file contents; exec failure) and checks: no temp file left at any exit, right solver and interface, (True, w) => SAT and w = solver's literals sorted by variable and w satisfies F, (False, None) <=> UNSAT, no answer/failing/missing/unsupported => RuntimeError, unknown sameas => ValueError, is_satisfiable = fst(solve). Every scenario (9.2k quick / 98.7k thorough) is replayed into the real code and its result or exception class and the scratch TMPDIR are compared for equality with TLC's outcomes.",
